@@ -3,6 +3,8 @@ CONSTANT Deviations = {}
 CONSTANT MaxLenQ = 3
 CONSTANT MaxLenT = 4
 CONSTANT MaxLenMixed = 3
+CONSTANT MaxSetT = 4
+CONSTANT MaxSetPh = 6
 CONSTANT MaxLenCustom = 3
 INVARIANT Requirements
 INVARIANT ResolverMaps
